@@ -25,6 +25,9 @@ type Waiter struct {
 	Gid   uint64
 	Label string
 	ch    chan struct{}
+	// fine mode: the goroutine wants a lock it failed to get when relGen had this value (+1); it
+	// is not offered to the explorer again before some lock has been released
+	failGen uint64
 }
 
 // Sched is the controller state.
@@ -36,12 +39,25 @@ type Sched struct {
 	Wait   func() // synctest.Wait
 	closed bool
 	Steps  int
+	// Fine: goroutines park at gates also inside critical sections and take locks cooperatively
+	// (TryLock at a gate), so that code holding a lock interleaves with unlocked code elsewhere.
+	Fine   bool
+	relGen uint64 // number of lock releases so far
 }
+
+var fineNext atomic.Bool //nolint:gochecknoglobals
+
+// SetFine selects the mode of the schedulers created from now on.
+func SetFine(f bool) { fineNext.Store(f) }
+
+// IsFine reports the mode selected by SetFine.
+func IsFine() bool { return fineNext.Load() }
 
 // NewSched creates a scheduler; the calling goroutine (the controller) is exempt from gating.
 func NewSched(wait func()) *Sched {
 	s := &Sched{parked: map[uint64]*Waiter{}, held: map[uint64]int{}, exempt: map[uint64]bool{}, Wait: wait}
 	s.exempt[Goid()] = true
+	s.Fine = fineNext.Load()
 
 	return s
 }
@@ -82,7 +98,7 @@ func Yield(label string) {
 	}
 	g := Goid()
 	s.mu.Lock()
-	if s.closed || s.exempt[g] || s.held[g] > 0 {
+	if s.closed || s.exempt[g] || (s.held[g] > 0 && !s.Fine) {
 		s.mu.Unlock()
 
 		return
@@ -91,6 +107,50 @@ func Yield(label string) {
 	s.parked[g] = w
 	s.mu.Unlock()
 	<-w.ch
+}
+
+// DoLock takes a lock of the code under test: a gate, then the lock. In fine mode the lock is taken
+// with try at a gate, and the goroutine goes back to the gate when somebody else holds it.
+func DoLock(label string, try func() bool, lock func()) {
+	s := cur.Load()
+	if s == nil {
+		lock()
+
+		return
+	}
+	g := Goid()
+	s.mu.Lock()
+	fine := s.Fine && !s.closed && !s.exempt[g]
+	s.mu.Unlock()
+	if !fine {
+		Yield(label)
+		lock()
+		Acquired()
+
+		return
+	}
+	var fail uint64
+	for {
+		s.mu.Lock()
+		if s.closed {
+			s.mu.Unlock()
+			lock()
+
+			return
+		}
+		w := &Waiter{Gid: g, Label: label, ch: make(chan struct{}), failGen: fail}
+		s.parked[g] = w
+		s.mu.Unlock()
+		<-w.ch
+		if try() {
+			Acquired()
+
+			return
+		}
+		s.mu.Lock()
+		fail = s.relGen + 1
+		s.mu.Unlock()
+	}
 }
 
 // Acquired records that the calling goroutine took a lock.
@@ -111,6 +171,7 @@ func Released() {
 		if s.held[g] > 0 {
 			s.held[g]--
 		}
+		s.relGen++
 		s.mu.Unlock()
 	}
 }
@@ -123,6 +184,9 @@ func (s *Sched) Parked() []*Waiter {
 	defer s.mu.Unlock()
 	out := make([]*Waiter, 0, len(s.parked))
 	for _, w := range s.parked {
+		if w.failGen == s.relGen+1 {
+			continue // waits for a lock that nobody has released since it last tried
+		}
 		out = append(out, w)
 	}
 	sort.Slice(out, func(i, j int) bool { return out[i].Gid < out[j].Gid })
